@@ -228,7 +228,7 @@ def run(tier, seed):
 def replay(case):
     want = case.get("_core")
     try:
-        got = _replay_direct(case)
+        got = par.run_fresh(_replay_direct, case)  # own process: must not pollute the next level
     except Exception:  # noqa
         got = []
     if got and (want is None or any(c == want for c, _ in got)):
